@@ -813,9 +813,15 @@ fn check_internal_tag_revealed_value(
     tag_value: &str,
     attr_value_map: &HashMap<String, Option<String>>,
 ) -> Result<()> {
-    let attr_name = INTERNAL_TAG_MATCHER
+    let captures = INTERNAL_TAG_MATCHER
         .captures(key)
-        .ok_or_else(|| err_msg!(InvalidState, "Attribute name became unparseable",))?
+        .ok_or_else(|| err_msg!(InvalidState, "Attribute name became unparseable",))?;
+    // a marker tag only states that the credential has the attribute; it carries no value to
+    // compare (`attr::<name>::value` does)
+    if captures.get(2).map_or(false, |kind| kind.as_str() == "marker") {
+        return Ok(());
+    }
+    let attr_name = captures
         .get(1)
         .ok_or_else(|| err_msg!(InvalidState, "No name has been parsed",))?
         .as_str();
